@@ -473,6 +473,7 @@ class GridFlow(WidgetWrap[Pile], WidgetContainerMixin, WidgetContainerListConten
         focus: bool = False,
     ) -> tuple[int, int]:
         if size:
+            self.get_display_widget(size)
             return super().pack(size, focus)
         if self:
             cols = len(self) * self.cell_width + (len(self) - 1) * self.h_sep
